@@ -910,6 +910,11 @@ def run_check(ctx, prop, props_module, level):
                                       ([c for c in cases if not slow(c)], ("index", "fifo"))):
                     if part:
                         impl = run_impl(exe, [c.ops for c in part], op_timeout=20 if quick else 60)
+                        # a timeout alone is re-tried once (alone, with four times the allowance) before it is reported
+                        for k, (ans, crash) in enumerate(impl):
+                            if crash is not None and "TIMEOUT" in crash:
+                                dist_f["timeouts_retried"] = dist_f.get("timeouts_retried", 0) + 1
+                                impl[k] = run_impl(exe, [part[k].ops], op_timeout=80 if quick else 240, max_crashes=1)[0]
                         evaluate(ctx, prop, part, impl, cov_f, dist_f, name, engines=engines, meta=meta)
                 ctx.log("in-process [%s]: %d cases (%d pinned)" % (name, len(cases), sum("pinned" in c.tags for c in cases)))
             except BaseException as e:          # re-raised in the main thread
